@@ -101,12 +101,16 @@ func checkC23(c *Ctx) *report.Result {
 		var cond []string
 		for _, sy := range ev.ExternPath[writerCall] {
 			k := it.Syms[sy].Cell
+			if sy == ev.ValSym {
+				cond = append(cond, "the written value")
+				continue
+			}
 			if k.Obj == 0 || (k.Obj == serialObj.ID && ai.NormPath(k.Path) == ai.NormPath(writerPath)) || sy == ev.AddrSym {
 				continue
 			}
 			cond = append(cond, c.cellLabel(ai.CellKey{Obj: k.Obj, Path: ai.NormPath(k.Path)}))
 		}
-		r.Ob("S-once", len(cond) == 0, "FF01 write delivers the byte whatever the machine state", where, fmt.Sprintf("the writer call is conditional on %v: in some states a byte written to FF01 is not delivered", cond))
+		r.Ob("S-once", len(cond) == 0, "FF01 write delivers the byte whatever the machine state and whatever the byte", where, fmt.Sprintf("the writer call is conditional on %v: in some states, or for some values, a byte written to FF01 is not delivered", cond))
 		r.Ob("S-sync", len(ev.Stores) == 0, "FF01 write keeps no state", where, fmt.Sprintf("stores: %v", keysOf(ev.Stores)))
 		r.Sample(map[string]interface{}{"FF01_write_host_calls": ev.Externs, "stores": keysOf(ev.Stores)})
 	}
@@ -288,7 +292,7 @@ func checkC23(c *Ctx) *report.Result {
 	// ... and the byte such a write hands to the decoder is the operand the instruction names
 	r.Rule("S-data", "the byte a store instruction hands to the decoder is its documented operand (rules F-deps, F-exact, F-frame of C01 restricted to the memory output)")
 	adopt(r, c.sibling("C01"), map[string]string{"F-deps": "S-data", "F-exact": "S-data", "F-frame": "S-data"}, "an instruction that stores another register than the one it names delivers a byte the program did not write to SB", func(f report.Finding) bool {
-		return strings.Contains(f.Construct, " mem") || strings.Contains(f.Detail, "mem")
+		return strings.Contains(f.Construct, " mem") || strings.Contains(f.Detail, "mem") || strings.Contains(f.Construct, "stored bytes")
 	})
 	// ---- S-read
 	for _, a := range []int{0xFF01, 0xFF02} {
